@@ -7,6 +7,7 @@ from bibtexparser.model import Entry, ExplicitComment, ImplicitComment, Preamble
 from bibtexparser.writer import BibtexFormat
 
 from .. import leak
+from bibtexparser.model import ParsingFailedBlock
 from ..canon import alias, canon, describe
 
 ID = "C07"
@@ -194,7 +195,7 @@ def bounds(tier):
 
 
 def shards(tier):
-    return [("stacks", li, mi) for li in range(NLIBS) for mi in range(len(POOL))] + [("write", li) for li in range(NLIBS)] + [("direct", li) for li in range(NLIBS)] + [("spelled", li) for li in range(NLIBS)] + [("leak", mi) for mi in range(len(POOL))]
+    return [("stacks", li, mi) for li in range(NLIBS) for mi in range(len(POOL))] + [("write", li) for li in range(NLIBS)] + [("direct", li) for li in range(NLIBS)] + [("factories", 0)] + [("spelled", li) for li in range(NLIBS)] + [("leak", mi) for mi in range(len(POOL))]
 
 
 def run_stack(li, idxs, acc, judged_prefixes):
@@ -320,6 +321,49 @@ def run_direct(li, acc):
                 break
 
 
+def run_factories(acc):
+    """The stack factories (default_parse_stack / default_unparse_stack) asked for copy mode give stacks every stage of
+    which is in copy mode: input of each stage left alone, nothing shared; the result equals the in-place stack's."""
+    from bibtexparser.middlewares.parsestack import default_parse_stack, default_unparse_stack
+    from bibtexparser.splitter import Splitter
+
+    spell = [("keyword", lambda f: f(allow_inplace_modification=False)), ("positional", lambda f: f(False))]
+    for di, doc in enumerate(DOCS):
+        for fname, fac, mk in (("default_parse_stack", default_parse_stack, lambda: Splitter(doc).split()), ("default_unparse_stack", default_unparse_stack, lambda: bibtexparser.parse_string(doc))):
+            for sname, call in spell + ([("default", lambda f: f())] if fname == "default_unparse_stack" else []):
+                case = {"factory": fname, "spelling": sname, "doc": di}
+                acc.trace()
+                acc.case(nontrivial_key=("factory", fname, sname, di))
+                try:
+                    stack = call(fac)
+                    cur = mk()
+                    ok = True
+                    for n, m in enumerate(stack):
+                        snap = canon(cur)
+                        out = m.transform(cur)
+                        if canon(cur) != snap:
+                            acc.violation({"oracle": "stage_input_unchanged", "middleware": type(m).__name__, "path": fname}, {"case": dict(case, stage=n), "observed": "input of the stage changed", "expected": "equal to its snapshot"})
+                            ok = False
+                            break
+                        al = alias(cur, out)
+                        if al:
+                            acc.violation({"oracle": "stage_output_shares_nothing_with_input", "middleware": type(m).__name__, "shared": type(al[0]).__name__, "path": fname}, {"case": dict(case, stage=n), "observed": [describe(o) for o in al[:3]], "expected": "no shared mutable object"})
+                            ok = False
+                            break
+                        cur = out
+                    if ok:
+                        ref = mk()
+                        for m in fac(allow_inplace_modification=True):
+                            ref = m.transform(ref)
+                        acc.step(("factory", fname, di), sname, hash(repr(canon(cur))))
+                        # (failed blocks aside: a duplicate-key wrapper made in copy mode holds a copy of the first holder as it was then)
+                        live = lambda L: [canon(b) for b in L.blocks if not isinstance(b, ParsingFailedBlock)]
+                        if live(ref) != live(cur) or len(ref.blocks) != len(cur.blocks):
+                            acc.violation({"oracle": "copy_mode_result_equals_inplace_result", "path": fname}, {"case": case, "observed": repr(canon(cur))[:300], "expected": repr(canon(ref))[:300]})
+                except Exception as e:
+                    acc.exception(e, case, fname)
+
+
 def run_write(li, acc):
     for spec in FORMATS:
         for stack_kw in ({}, {"prepend_middleware": []}):
@@ -358,6 +402,9 @@ def run_shard(shard, tier, acc):
     if shard[0] == "direct":
         run_direct(shard[1], acc)
         return
+    if shard[0] == "factories":
+        run_factories(acc)
+        return
     if shard[0] == "spelled":
         run_spelled(shard[1], acc)
         return
@@ -382,7 +429,9 @@ def run_shard(shard, tier, acc):
 
 
 def replay(case, acc):
-    if "spelled_library" in case:
+    if "factory" in case:
+        run_factories(acc)
+    elif "spelled_library" in case:
         run_spelled(case["spelled_library"], acc)
     elif "direct_library" in case:
         run_direct(case["direct_library"], acc)
